@@ -5,6 +5,7 @@ pub mod ctx;
 pub mod genm;
 pub mod impls;
 pub mod json;
+pub mod num;
 pub mod oracle;
 pub mod props;
 pub mod rng;
